@@ -360,8 +360,23 @@ def battery(ureg, model, nit, path):
         want = 7 * o["scale"] + o["offset"]
         if (nit == "Fraction" and (isinstance(g, float) or Fraction(g) != want)) or abs(float(g) - float(want)) > 1e-9 * max(1.0, abs(float(want))):
             raise Violation("offset_unit_not_as_written", f"[{path}/{nit}] 7 {o['name']} = {g!r} {o['ref']}, written {want}")
-        if ureg.get_name(o["symbol"]) != o["name"]:
-            raise Violation("spelling_not_as_written", f"[{path}/{nit}] {o['symbol']}")
+        for sp_ in [o["symbol"]] * bool(o["symbol"]) + list(o.get("aliases", [])):
+            if ureg.get_name(sp_) != o["name"]:
+                raise Violation("spelling_not_as_written", f"[{path}/{nit}] {sp_}")
+        # the delta counterpart of an offset unit: converts by the scale alone, is reachable under delta_<name>, delta_<alias>, and the Delta sign
+        # before the unit's symbol and aliases (for a unit written without a symbol that is its name), and reports the Delta sign + symbol
+        dn = "delta_" + o["name"]
+        g = ureg.Quantity(x, dn).to(o["ref"]).magnitude
+        want = 7 * o["scale"]
+        if (nit == "Fraction" and (isinstance(g, float) or Fraction(g) != want)) or abs(float(g) - float(want)) > 1e-9 * max(1.0, abs(float(want))):
+            raise Violation("offset_unit_not_as_written:delta", f"[{path}/{nit}] 7 {dn} = {g!r} {o['ref']}, written scale {o['scale']}")
+        sym = ureg.get_symbol(o["name"])
+        for sp_ in ["Δ" + sym] + ["Δ" + a_ for a_ in o.get("aliases", [])] + ["delta_" + a_ for a_ in o.get("aliases", [])]:
+            s_, n_ = attempt(ureg.get_name, sp_)
+            if s_ == "err" or n_ != dn:
+                raise Violation("spelling_not_as_written:delta", f"[{path}/{nit}] {sp_!r} -> {n_!r}, expected {dn!r} (offset unit written as symbol={o['symbol']!r}, aliases={o.get('aliases')})")
+        if ureg.get_symbol(dn) != "Δ" + sym:
+            raise Violation("spelling_not_as_written:delta_symbol", f"[{path}/{nit}] get_symbol({dn!r}) = {ureg.get_symbol(dn)!r}, the unit's symbol is {sym!r}")
     for g in model["groups"]:
         want = regmodel.group_members(model, g["name"])
         st_, grp = attempt(ureg.get_group, g["name"], False)
